@@ -359,6 +359,53 @@ def check_sc(crate, rep, cfg):
                                 for f in fl:
                                     if f[0] == "call" and f[1].endswith("Value::is_truthy") and vm.dominates(tgt, bb) and tgt != sb:
                                         got[v] = f[3]
+    # merged arm: `let jump_when = matches!(instr, JumpIfTrueOrPop(_)); if top.is_truthy() == jump_when { ip = target }` — per opcode the flag
+    # is a constant, so the jump condition is `truthy == <that constant>`
+    for bb, idx, s in vm.stmts():
+        if idx != "t" and s["k"] == "assign" and not s["pl"]["p"] and s["pl"]["l"] in ips:
+            vs = {p[3:] for l in vtr._rv(s["rv"], (), set(), 0, bb, idx) for p in l.projs if p.startswith("as:") and p[3:] in want}
+            if len(vs) < 2:
+                continue
+            for sb in sorted(vm.reachable):
+                st = vm.term(sb)
+                if st["k"] != "switch" or not vm.dominates(sb, bb) or st["op"]["k"] == "const" or st["op"]["pl"]["p"]:
+                    continue
+                d = vef.single_def(st["op"]["pl"]["l"])
+                if not d or d[3]["k"] != "bin" or d[3]["op"] not in ("Eq", "Ne"):
+                    continue
+                sides = [d[3]["l"], d[3]["r"]]
+                truthy = [x for x in sides if x["k"] in ("copy", "move") and any(leaf_call_is(l, "value::Value::is_truthy") for l in vtr.operand(x))]
+                flags = [x for x in sides if x not in truthy and x["k"] in ("copy", "move") and not x["pl"]["p"]]
+                if len(truthy) != 1 or len(flags) != 1:
+                    continue
+                # the flag: constant true on the edge of some opcodes, constant false otherwise
+                fl = flags[0]["pl"]["l"]
+                srcs = {fl} | {rv["op"]["pl"]["l"] for (b2, i2, dp, rv) in vm.defs.get(fl, []) if rv["k"] == "use" and rv["op"]["k"] in ("copy", "move")}
+                true_for = set()
+                okflag = True
+                for x in srcs:
+                    for (b2, i2, dp, rv) in vm.defs.get(x, []):
+                        if rv["k"] == "use" and rv["op"]["k"] == "const":
+                            val = str(rv["op"].get("v"))
+                            for sb2 in sorted(vm.reachable):
+                                if vm.term(sb2)["k"] != "switch":
+                                    continue
+                                for tgt2, fl2 in vef.facts_for_switch(sb2).items():
+                                    for f2 in fl2:
+                                        if f2[0] == "variant" and f2[1].endswith("instructions::Instruction") and f2[4] and vm.dominates(tgt2, b2) and len(vm.pred[tgt2]) == 1 \
+                                                and val == "1" and set(f2[3]) <= vs:
+                                            true_for |= set(f2[3])
+                if not true_for:
+                    continue
+                # which edge of the Eq/Ne switch dominates the jump
+                for v2, tgt in st["targets"] + [("other", st["otherwise"])]:
+                    if vm.dominates(tgt, bb) and tgt != sb and len(vm.pred[tgt]) == 1:
+                        eq_holds = (v2 != "0") if v2 != "other" else (st["targets"][0][0] == "0")
+                        if d[3]["op"] == "Ne":
+                            eq_holds = not eq_holds
+                        for v in vs:
+                            flag_val = v in true_for
+                            got[v] = flag_val if eq_holds else (not flag_val)
     for v, w in want.items():
         ok = got.get(v) == w
         rep.add("C02.SC", "C02.SC:vm:%s" % v, ok, vm.where(0), "the VM arm of %s jumps when the tested value is %s" % (v, "truthy" if w else "falsy")
